@@ -50,6 +50,7 @@ import SwcVerif.Model.Assemble
 import SwcVerif.Model.AlgoRunBranchTree
 import SwcVerif.Model.AlgoRunWriter
 import SwcVerif.Model.AlgoRunCtor
+import SwcVerif.Model.AlgoRunCtorTree
 
 def dispatch (op : String) (args : List String) : String :=
   match op with
@@ -130,6 +131,7 @@ def dispatch (op : String) (args : List String) : String :=
   | "swcwrite" => SwcText.handleWrite args
   | "gswcwrite" | "gioswc" => AlgoRun.handleWriter op args
   | "gwrap" => AlgoRun.handleWrap args
+  | "gwraptree" => AlgoRun.handleWrapTree args
   | "gcopying" => AlgoRun.handleCopying args
   | _ => "bad-op"
 
